@@ -168,6 +168,25 @@ func main() {
 			}
 			rbin = binRace
 		}
+		var crashHdr struct {
+			Crash     bool   `json:"crash"`
+			Signature string `json:"signature"`
+			Property  string `json:"property"`
+		}
+		if b, err := os.ReadFile(*replay); err == nil {
+			json.Unmarshal(b, &crashHdr)
+		}
+		if crashHdr.Crash {
+			out, _ := exec.Command(rbin, "-replay", *replay, "-known", kfPath).CombinedOutput()
+			fmt.Println(tail(string(out), 4000))
+			if site, ok := crashSite(string(out)); ok && crashHdr.Property+"/crash/"+site == crashHdr.Signature {
+				fmt.Println("REPLAY reproduced exactly (the process dies the same way)")
+				fmt.Printf("VIOLATION property=%s replay=%s\n", crashHdr.Property, *replay)
+				exit(1)
+			}
+			fmt.Println("REPLAY did not crash the same way")
+			exit(2)
+		}
 		c := exec.Command(rbin, "-replay", *replay, "-known", kfPath)
 		c.Env = append(os.Environ(), "VERIF_REPLAY_TRACE=1")
 		c.Stdout, c.Stderr = os.Stdout, os.Stderr
@@ -204,6 +223,7 @@ func main() {
 		}
 	}
 	results := make([]*workerResult, *nw)
+	crashes := make([]string, *nw)
 	fails := make([]string, *nw)
 	isRace := make([]bool, *nw)
 	var wg sync.WaitGroup
@@ -256,6 +276,25 @@ func main() {
 			}
 			b, err := os.ReadFile(out)
 			if err != nil {
+				if site, ok := crashSite(stderr.String()); ok {
+					// the process died on a fatal error inside sonic: that run is the violation
+					if pr, e2 := os.ReadFile(out + ".progress"); e2 == nil {
+						var name string
+						var variant int
+						var rseed uint64
+						if n, _ := fmt.Sscanf(string(pr), "%s %d %d", &name, &variant, &rseed); n == 3 {
+							path := filepath.Join(replayDir, fmt.Sprintf("%s-%d-w%d-crash.json", prop, seed, j))
+							rp := map[string]any{"property": prop, "scenario": name, "variant": variant, "seed": rseed, "thorough": *tier == "thorough",
+								"signature": prop + "/crash/" + site, "crash": true, "race": isRace[j], "tape": nil, "tape_len_before_minimisation": 0,
+								"message": "the process died on a fatal error inside sonic during this run (not a recoverable panic):\n" + tail(stderr.String(), 2500)}
+							js, _ := json.MarshalIndent(rp, "", " ")
+							os.WriteFile(path, js, 0o644)
+							crashes[j] = path
+							fails[j] = ""
+							return
+						}
+					}
+				}
 				if fails[j] == "" {
 					fails[j] = fmt.Sprintf("worker %d wrote no result: %v\n%s", j, err, tail(stderr.String(), 3000))
 				}
@@ -311,6 +350,11 @@ func main() {
 			}
 		}
 	}
+	for _, p := range crashes {
+		if p != "" {
+			total.Violations = append(total.Violations, p)
+		}
+	}
 	wall := time.Since(start).Seconds()
 
 	// 4. verify violations in a fresh process
@@ -323,11 +367,26 @@ func main() {
 			Signature string `json:"signature"`
 			Message   string `json:"message"`
 			Race      bool   `json:"race"`
+			Crash     bool   `json:"crash"`
 		}
 		b, _ := os.ReadFile(p)
 		json.Unmarshal(b, &rp)
 		if seenSig[rp.Signature] {
 			os.Remove(p)
+			continue
+		}
+		if rp.Crash {
+			rb := bin
+			if rp.Race {
+				rb = binRace
+			}
+			out, _ := exec.Command(rb, "-replay", p, "-known", kfPath).CombinedOutput()
+			if site, ok := crashSite(string(out)); ok && prop+"/crash/"+site == rp.Signature {
+				seenSig[rp.Signature] = true
+				confirmed = append(confirmed, viol{p, rp.Signature, firstLine(rp.Message)})
+			} else {
+				harness = append(harness, fmt.Sprintf("replay of %s did not crash the same way: %s", p, tail(string(out), 1500)))
+			}
 			continue
 		}
 		rbin := bin
@@ -446,6 +505,42 @@ func main() {
 		exit(2)
 	}
 	exit(0)
+}
+
+func firstLine(s string) string {
+	if i := strings.IndexByte(s, '\n'); i >= 0 {
+		return s[:i]
+	}
+	return s
+}
+
+// crashSite recognises a Go runtime crash (fatal error / fatal signal) and
+// returns the innermost sonic function of the crashing goroutine.
+func crashSite(stderr string) (string, bool) {
+	if !strings.Contains(stderr, "fatal error:") && !strings.Contains(stderr, "unexpected fault address") && !strings.Contains(stderr, "SIGSEGV") && !strings.Contains(stderr, "SIGBUS") {
+		return "", false
+	}
+	i := strings.Index(stderr, "goroutine ")
+	if i < 0 {
+		return "", false
+	}
+	for _, l := range strings.Split(stderr[i:], "\n") {
+		if l == "" && false {
+			break
+		}
+		if strings.HasPrefix(l, "sonicverif/scen.") || strings.HasPrefix(l, "sonicverif/cmd") {
+			return "", false // the crash is in harness code
+		}
+		if strings.HasPrefix(l, "github.com/talostrading/sonic") {
+			fn := l
+			if k := strings.LastIndex(fn, "("); k > 0 {
+				fn = fn[:k]
+			}
+			fn = strings.NewReplacer("(", "", ")", "", "*", "").Replace(fn)
+			return strings.Trim(strings.TrimPrefix(fn, "github.com/talostrading/sonic"), "/."), true
+		}
+	}
+	return "", false
 }
 
 func tail(s string, n int) string {
